@@ -95,6 +95,8 @@ fn parse(text: &str, allow_substvar: bool) -> Parse {
                 self.bump();
             }
             loop {
+                #[cfg(feature = "verif-hooks")]
+                verif_tick(10, self.current());
                 match self.current() {
                     Some(IDENT) | Some(COLON) => {
                         self.bump();
@@ -119,6 +121,8 @@ fn parse(text: &str, allow_substvar: bool) -> Parse {
             self.skip_ws();
             self.builder.start_node(SyntaxKind::ENTRY.into());
             loop {
+                #[cfg(feature = "verif-hooks")]
+                verif_tick(11, self.current());
                 self.parse_relation();
                 match self.peek_past_ws() {
                     Some(COMMA) => {
@@ -209,6 +213,8 @@ fn parse(text: &str, allow_substvar: bool) -> Parse {
                     || self.current() == Some(R_ANGLE)
                     || self.current() == Some(EQUAL)
                 {
+                    #[cfg(feature = "verif-hooks")]
+                    verif_tick(12, self.current());
                     self.bump();
                 }
 
@@ -236,6 +242,8 @@ fn parse(text: &str, allow_substvar: bool) -> Parse {
                 self.builder.start_node(ARCHITECTURES.into());
                 self.bump();
                 loop {
+                    #[cfg(feature = "verif-hooks")]
+                    verif_tick(13, self.current());
                     self.skip_ws();
                     match self.current() {
                         Some(NOT) => {
@@ -257,11 +265,15 @@ fn parse(text: &str, allow_substvar: bool) -> Parse {
             }
 
             while self.peek_past_ws() == Some(L_ANGLE) {
+                #[cfg(feature = "verif-hooks")]
+                verif_tick(14, self.current());
                 self.skip_ws();
                 self.builder.start_node(PROFILES.into());
                 self.bump();
 
                 loop {
+                    #[cfg(feature = "verif-hooks")]
+                    verif_tick(15, self.current());
                     self.skip_ws();
                     match self.current() {
                         Some(IDENT) => {
@@ -302,6 +314,8 @@ fn parse(text: &str, allow_substvar: bool) -> Parse {
             self.skip_ws();
 
             while self.current().is_some() {
+                #[cfg(feature = "verif-hooks")]
+                verif_tick(16, self.current());
                 match self.current() {
                     Some(IDENT) => self.parse_entry(),
                     Some(DOLLAR) => {
@@ -355,6 +369,8 @@ fn parse(text: &str, allow_substvar: bool) -> Parse {
         }
         fn skip_ws(&mut self) {
             while self.current() == Some(WHITESPACE) || self.current() == Some(NEWLINE) {
+                #[cfg(feature = "verif-hooks")]
+                verif_tick(17, self.current());
                 self.bump()
             }
         }
@@ -429,6 +445,59 @@ ast_node!(Relations, ROOT);
 ast_node!(Entry, ENTRY);
 ast_node!(Relation, RELATION);
 ast_node!(Substvar, SUBSTVAR);
+
+#[cfg(feature = "verif-hooks")]
+fn verif_tick(site: u16, cur: Option<SyntaxKind>) {
+    deb822_lossless::verif::tick(
+        site,
+        match cur {
+            Some(k) => k as u16,
+            None => deb822_lossless::verif::CUR_NONE,
+        },
+    );
+}
+
+#[cfg(feature = "verif-hooks")]
+fn verif_dump_node(node: &SyntaxNode) -> (Vec<(SyntaxKind, Option<String>, u32)>, bool, bool) {
+    let mut out = vec![];
+    let mut depth = 0u32;
+    for ev in node.preorder_with_tokens() {
+        match ev {
+            rowan::WalkEvent::Enter(NodeOrToken::Node(n)) => {
+                out.push((n.kind(), None, depth));
+                depth += 1;
+            }
+            rowan::WalkEvent::Enter(NodeOrToken::Token(t)) => {
+                out.push((t.kind(), Some(t.text().to_string()), depth));
+            }
+            rowan::WalkEvent::Leave(NodeOrToken::Node(_)) => {
+                depth -= 1;
+            }
+            rowan::WalkEvent::Leave(NodeOrToken::Token(_)) => {}
+        }
+    }
+    (out, node.is_mutable(), node.parent().is_some())
+}
+
+#[cfg(feature = "verif-hooks")]
+macro_rules! verif_dump_impl {
+    ($ast:ident) => {
+        impl $ast {
+            /// Verification hook: pre-order walk of this handle's tree as
+            /// (kind, token text, depth), whether the handle's tree is
+            /// mutable and whether the handle has a parent.
+            pub fn verif_dump(&self) -> (Vec<(SyntaxKind, Option<String>, u32)>, bool, bool) {
+                verif_dump_node(&self.0)
+            }
+        }
+    };
+}
+#[cfg(feature = "verif-hooks")]
+verif_dump_impl!(Relations);
+#[cfg(feature = "verif-hooks")]
+verif_dump_impl!(Entry);
+#[cfg(feature = "verif-hooks")]
+verif_dump_impl!(Relation);
 
 impl PartialEq for Relations {
     fn eq(&self, other: &Self) -> bool {
